@@ -318,6 +318,10 @@ def run_lines(exe, cmd, lines, workdir, tag, timeout=900, shards=16):
             got = len(outl)
             if rc == 0 and start + got >= hi - lo:
                 break
+            if rc == 3:
+                # the harness reported a hanging case itself (last line) and exited: resume after it
+                start = start + got
+                continue
             # the tool died on case start+got: mark and continue after it
             if start + got < hi - lo:
                 res[start + got] = 'CRASH rc=%s' % rc
